@@ -13,7 +13,7 @@
 EXTENDS TraceLib
 
 CS == INSTANCE CutSite WITH MaxClip <- 6, Clip3s <- {0}, ReadLens <- {10}, FlankIds <- {1}, FlankPairs <- "diag",
-                            MMBases <- {"A"}, XBases <- {"A"}, Protos <- {"nla"}, Variant <- "design",
+                            MMBases <- {"A"}, BoundaryPs <- {}, XBases <- {"A"}, Protos <- {"nla"}, Variant <- "design",
                             scn <- <<>>, pc <- <<>>, frag <- <<>>
 
 VARIABLE l
